@@ -7,7 +7,7 @@ FAMILY = 'wire (generate_state)'
 RULE = ('as C06, kind gen: the state built by generate_state from 1-3 processes sharing variables through random '
         'topologies and a partial initial state (incl. children of glob ports named only by the initial state), '
         'compared with Model/Wire.v generate; malformed stream: two processes declaring different _value or _units for '
-        'one node (must raise); Composite.initial_state()/default_state() against the same placement. '
+        'one node (must raise); Composite.initial_state()/default_state() of the same composites with processes that supply their own initial values: each value must sit at the node the port variable is wired to (explicit state winning), a config override must appear in the result and must not stick to the composite. '
         'Non-trivial: >=2 ports.')
 ASSUMPTIONS = __import__('harness.c06', fromlist=['x']).ASSUMPTIONS + [
     'conflicting _default declarations are outside the claim: the last declaration wins silently (DESIGN.md section 7); the model reproduces this',
@@ -73,8 +73,136 @@ def _has(s, field):
     return False
 
 
+def own_values(schema, base):
+    """a process's own initial values: every declared variable outside globs and output ports gets a value
+    that identifies the process and the variable"""
+    out, n = {}, [base]
+
+    def walk(s, d):
+        for k, x in s['$node']['c']:
+            if k == '*' or x == '**':
+                continue
+            if '$var' in x:
+                n[0] += 1
+                d[k] = n[0]
+            elif not x['$node']['out']:
+                d[k] = {}
+                walk(x, d[k])
+    if isinstance(schema, dict) and '$node' in schema and not schema['$node']['out']:
+        walk(schema, out)
+    return out
+
+
+def prune_empty(d):
+    if isinstance(d, dict):
+        out = {k: prune_empty(v) for k, v in d.items()}
+        return {k: v for k, v in out.items() if v != {}}
+    return d
+
+
+def run_composite(c):
+    """Composite.initial_state()/default_state(): each process's own values must land on the nodes its ports are
+    wired to; a one-off override passed in the config must not stick to the composite"""
+    from vivarium.core.composer import Composite
+    from vivarium.core.process import Process
+    base = wire.pcls()
+
+    class Owning(base):
+        defaults = {'schema': {}, 'own': {}}
+
+        def initial_state(self, config=None):
+            return copy.deepcopy(self.parameters['own'])
+    processes, topology, owns = {}, {}, []
+    for i, p in enumerate(c['procs']):
+        d, t = processes, topology
+        for k in p['parent']:
+            d = d.setdefault(k, {})
+            t = t.setdefault(k, {})
+        own = own_values(p['schema'], 1000 * (i + 1))
+        owns.append(own)
+        d[p['name']] = Owning({'schema': wire.py_schema(p['schema']), 'own': own})
+        t[p['name']] = {k: wire.py_topo(x) for k, x in p['topo']}
+    state0 = copy.deepcopy(c['init'])
+    comp = Composite({'processes': processes, 'topology': topology, 'state': copy.deepcopy(state0)})
+    first = comp.initial_state()
+    override = {'zz_override': {'x': 42}}
+    for k, v in first.items():
+        if not isinstance(v, dict):
+            override[k] = -77
+            break
+    with_override = comp.initial_state({'initial_state': copy.deepcopy(override)})
+    again = comp.initial_state()
+    default = comp.default_state()
+    store = comp.generate_store()
+    return {'owns': owns, 'first': first, 'again': again, 'override_seen': all(
+                with_override.get(k) == v for k, v in override.items()),
+            'state_kept': comp.state == state0, 'default': default,
+            'store_values': wire.dump_values(store)}
+
+
 def run_impl(c):
-    return wire.run_impl(c)
+    ob = wire.run_impl(c)
+    if c['kind'] == 'gen' and not c.get('malformed') and 'ok' in ob:
+        try:
+            ob['comp'] = run_composite(c)
+        except Exception as e:
+            ob['comp'] = {'err': type(e).__name__ + ':' + str(e)[:160]}
+    return ob
+
+
+def composite_oracle(c, ob):
+    msgs = []
+    co = ob.get('comp')
+    if not co:
+        return msgs
+    if 'err' in co:
+        return [('Composite.initial_state()/default_state() raised on a composite generate_state accepts: ' + co['err'],
+                 'composite-raised')]
+    if co['again'] != co['first'] or not co['state_kept']:
+        msgs.append(('Composite.initial_state() differs after a call with a one-off initial_state override '
+                     '(the override stuck to the composite)', 'override-sticks'))
+    if not co['override_seen']:
+        msgs.append(('the initial_state passed in the config is not in the result', 'override-ignored'))
+    # every own value sits at the node the port variable is wired to (explicit state wins)
+    try:
+        store = wire.build_store(c['procs'], c['init'])
+    except Exception:
+        return msgs
+
+    def get(d, path):
+        for k in path:
+            if not isinstance(d, dict) or k not in d:
+                return None
+            d = d[k]
+        return d
+    wanted = {}
+    for p, own in zip(c['procs'], co['owns']):
+        node = store.get_path(tuple(p['parent']) + (p['name'],))
+        refs = wire.dump_view(node.topology_view)
+
+        def walk(o, r):
+            if isinstance(r, list) and r and r[0] == 'ref':
+                if not isinstance(o, dict):
+                    wanted.setdefault(tuple(r[1]), []).append(o)
+                return
+            if isinstance(o, dict) and isinstance(r, dict):
+                for k, sub in o.items():
+                    if k in r:
+                        walk(sub, r[k])
+        walk(own, refs)
+    for path, vals in wanted.items():
+        given = get(c['init'], path)
+        got = get(co['first'], path)
+        if given is not None and not isinstance(given, dict):
+            if got != given:
+                msgs.append(('initial_state() gives %r at %r, the composite state says %r' % (got, path, given),
+                             'composite-state-ignored'))
+                break
+        elif got not in vals:
+            msgs.append(('initial_state() gives %r at %r, the processes wired there supply %r' % (got, path, vals),
+                         'own-value-misplaced'))
+            break
+    return msgs
 
 
 def oracle(c, ob, rng):
@@ -86,6 +214,7 @@ def oracle(c, ob, rng):
         return msgs
     if 'ok' not in ob:
         return msgs
+    msgs.extend(composite_oracle(c, ob))
     try:
         store = wire.build_store(c['procs'], c['init'])
     except Exception:
